@@ -402,3 +402,12 @@ func keyToName(k string, ptr bool) string {
 	}
 	return parts[0] + ".(" + parts[1] + ")." + parts[2]
 }
+
+// CurrentName maps a function name of the reference tree ("relpkg.Name" / "relpkg.(*T).Name") to the name it has on
+// the analysed tree when the canonicaliser recognised a pure rename; otherwise the name itself.
+func (p *Program) CurrentName(name string) string {
+	if to, ok := p.aliases[name]; ok {
+		return to
+	}
+	return name
+}
